@@ -34,7 +34,7 @@ def run(ctx):
         validation_rules.add_point_validation(ctx, prog, "R4")
         bounds_rules.validation_before_update(ctx, prog, "R4")
         validation_rules.prototype_validation(ctx, prog, "R5")
-        bound_rules.loop_progress(ctx, prog, "R6", "writer", floor=15)
+        bound_rules.loop_progress(ctx, prog, "R6", "writer", floor=8)
         bound_rules.allocation_sizes(ctx, prog, "R6", "writer")
         bound_rules.equal_length_classes(ctx, prog, "R6")
         if cfg == "lib":
